@@ -314,20 +314,46 @@ pub fn make_config(
                 Ok(())
             }
         }))
-        .goal(Box::new(move |s: &McState| {
-            if holds(&goal, &l2, s) {
-                Some("goal".to_string())
-            } else {
-                None
-            }
-        }))
-        .prune(Box::new(move |s: &McState| {
-            if holds(&prune, &l3, s) {
-                Some("prune".to_string())
-            } else {
-                None
-            }
-        }))
+        // a goal / prune with several alternatives goes through the library's own combinators (one closure per alternative)
+        .goal(if goal.len() > 1 {
+            anysystem::mc::predicates::goals::any_goal(
+                goal.iter()
+                    .map(|a| {
+                        let (a, l) = (vec![a.clone()], l2.clone());
+                        Box::new(move |s: &McState| if holds(&a, &l, s) { Some("goal".to_string()) } else { None })
+                            as anysystem::mc::GoalFn
+                    })
+                    .collect(),
+            )
+        } else {
+            Box::new(move |s: &McState| {
+                if holds(&goal, &l2, s) {
+                    Some("goal".to_string())
+                } else {
+                    None
+                }
+            })
+        })
+        .prune(if prune.len() > 1 {
+            anysystem::mc::predicates::prunes::any_prune(
+                prune
+                    .iter()
+                    .map(|a| {
+                        let (a, l) = (vec![a.clone()], l3.clone());
+                        Box::new(move |s: &McState| if holds(&a, &l, s) { Some("prune".to_string()) } else { None })
+                            as anysystem::mc::PruneFn
+                    })
+                    .collect(),
+            )
+        } else {
+            Box::new(move |s: &McState| {
+                if holds(&prune, &l3, s) {
+                    Some("prune".to_string())
+                } else {
+                    None
+                }
+            })
+        })
         .collect(Box::new(move |s: &McState| {
             if rec.borrow().len() >= cap() {
                 // scenario too large for the correspondence run: abort it (reported as `capped`)
